@@ -8,6 +8,8 @@ stdout JSON list, one entry per case:
    "snap": {"buffer": [...], "states": [[...12 fields...]], "keys": [...]},
    "ticks": [{"status": "ok" | exc-kind, "events": [[row, text], ...], "snap": {...}, "sleeps": n}],
    "cross": [{"by": operation, "changed": "peer" | "main", "before": {...}, "after": {...}}]}
+A case may carry "between": {"k": [["line", row, text] | ["write", col, row, text] | ["clear"], ...]}: other LCD calls made just
+before tick number k; that tick's entry then has "pre" = the snapshot after those calls (else null).
 A case may carry "peer": {"cols", "rows", "anims": [...], "tick_before": [k, ...]}: a second display created before the
 main one.  Its first animation is started before the main display's animate calls, the others after them, and it is
 ticked (with the same time) just before the main display's ticks number k.  "cross" lists every operation on one of the
@@ -131,6 +133,23 @@ def run_case(c):
         if pc and k in pc.get("tick_before", []):
             del log[:]
             peer_op(f"peer.tick({now}) before main tick #{k}", lambda now=now: peer.tick(now))
+        pre = None
+        ops = (c.get("between") or {}).get(str(k))
+        if ops:
+            # other LCD calls between two ticks (the script's own writes): never a reason for tick to raise
+            for op in ops:
+                try:
+                    if op[0] == "line":
+                        lcd.line(op[1], op[2])
+                    elif op[0] == "write":
+                        lcd.write(op[1], op[2], op[3])
+                    elif op[0] == "clear":
+                        lcd.clear()
+                except Exception as e:  # noqa
+                    out.setdefault("between_errors", []).append([k, op, kind(e)])
+            if not isinstance(lcd.buffer, RecBuffer):
+                lcd.buffer = RecBuffer(lcd.buffer, log)
+            pre = snap(lcd)
         del log[:]
         n0 = len(SLEEPS)
         t0 = time.perf_counter()
@@ -148,7 +167,7 @@ def run_case(c):
             log.append(["*", list(lcd.buffer)])
             lcd.buffer = RecBuffer(lcd.buffer, log)
         out["ticks"].append({"status": st, "events": [list(x) for x in log], "snap": snap(lcd),
-                             "sleeps": len(SLEEPS) - n0, "wall": time.perf_counter() - t0})
+                             "sleeps": len(SLEEPS) - n0, "wall": time.perf_counter() - t0, "pre": pre})
         if st != "ok":
             break
     return out
